@@ -30,6 +30,14 @@ CHECKS = {
             "count check dominating every sequence append, depth refusal before children and depth=parent+1, budget check "
             "dominating recording and stopping the search, FIFO work list (=> breadth-first, shallower variables win), "
             "each limit wired to its own key.", "4/C05"),
+    "C06": ("host-value taint analysis enumerating every operation on traced-program values, type-pin (refinement) and local-guard rules, ownership rule for the snapshot table and identity cache by origin expansion",
+            "Static decision for every object graph: each operation the collector applies to a host value is total on a dominating "
+            "type pin or locally guarded (otherwise an input exists that loses the whole snapshot); each snapshot's table and the "
+            "identity cache used to fill it are created per action and one action uses one cache. Does not decide protobuf encodability.", "4/C06"),
+    "C07": ("origin expansion of reference ids, dominance/escape rule between id issue and table entry, who-may-write rule on the identity cache, Optional-use contradiction rule, deletion rule",
+            "Static decision that every reference id is the cache id of the value it names, that an issued id always gets its entry, "
+            "children attach only to recorded ids, ids come from the size of a grow-only cache, cache hits stop descent before issue, "
+            "an Optional id is tested before use, and no entry is deleted while its id can still be handed out (one known finding).", "4/C07"),
     "C09": ("who-may-call / thread-role reachability over the resolved call graph, exactly-once path-shape rules, escape analysis of flush, lock discipline",
             "Static rules deciding, for every schedule and fault placement, the structural clauses: conversion and "
             "sending are unreachable from the application thread, each hand-over is submitted exactly once on every "
